@@ -722,6 +722,17 @@ func ruleRegexpQuoting(c *Ctx, rule string) {
 					if an.CalleeName(&x.Call) == "regexp.QuoteMeta" {
 						return
 					}
+					// the text of a local strings.Builder or of a plain Sprintf: every piece of it
+					if paths, isB := textPieces(x); isB {
+						for _, p := range paths {
+							for _, piece := range p {
+								if !piece.isLit {
+									check(piece.v)
+								}
+							}
+						}
+						return
+					}
 				case *ssa.UnOp:
 					if fa, ok := x.X.(*ssa.FieldAddr); ok && x.Op == token.MUL {
 						fn := an.FieldName(fa.X.Type(), fa.Field)
@@ -784,6 +795,29 @@ func ruleRegexpQuoting(c *Ctx, rule string) {
 						}
 					}
 				})
+				if bs, isCall := call.Args[0].(*ssa.Call); isCall && !guarded {
+					if paths, isB := builderPaths(bs); isB {
+						for _, p := range paths {
+							for _, piece := range p {
+								if !piece.isLit || (piece.lit != `\z` && piece.lit != "$") {
+									continue
+								}
+								if an.DominatedByEdge(piece.in, func(b *ssa.BasicBlock, succ int) bool {
+									return edgeHas(b, succ, func(cond ssa.Value, truth bool) bool {
+										x, kc, eq, ok := an.CondAtom(cond)
+										if !ok || !strings.HasSuffix(an.AP(x), ".Suffix") {
+											return false
+										}
+										sk, isStr := strConst(kc)
+										return isStr && sk == "" && eq == truth
+									})
+								}) {
+									guarded = true
+								}
+							}
+						}
+					}
+				}
 				good := anchored && guarded
 				c.R.Add(rule, c.fk(f), "regexp-source/no-suffix⇒anchored-at-the-end", c.pos(in), good, ifelse(good, "without a literal suffix the expression ends with an end anchor", "a regexp parameter that ends its pattern (no literal suffix) is compiled without an end anchor: the engine's preferred match can be a proper prefix of the rest (\"zh\" for the rule zh|zh-CN, one digit for \\d+?), the left-over text fails the route and the request is a 404 although the rule accepts the whole rest"))
 			}
@@ -824,6 +858,31 @@ func regexpAlternatives(c *Ctx, v ssa.Value, depth int) []string {
 	case *ssa.Call:
 		if an.CalleeName(&x.Call) == "regexp.QuoteMeta" {
 			return []string{"\x00Q"}
+		}
+		if paths, isB := textPieces(x); isB {
+			var out []string
+			for _, p := range paths {
+				alts := []string{""}
+				for _, piece := range p {
+					parts := []string{piece.lit}
+					if !piece.isLit {
+						parts = regexpAlternatives(c, piece.v, depth+1)
+					}
+					var next []string
+					for _, l := range alts {
+						for _, r := range parts {
+							next = append(next, l+r)
+						}
+					}
+					alts = next
+					if len(alts) > 1024 {
+						return []string{"\x00X"}
+					}
+				}
+				out = append(out, alts...)
+			}
+			sort.Strings(out)
+			return dedupStrings(out)
 		}
 	case *ssa.UnOp:
 		if fa, ok := x.X.(*ssa.FieldAddr); ok && x.Op == token.MUL {
